@@ -3,16 +3,19 @@
    (direction A).  The trace file is a concatenation of runs; each run starts
    with a RunBegin record that carries the table of expected jobs computed by
    MroSem for the program of that run (job key, instance, kind, chunk,
-   dependencies, whether it is the last job of its instance).
+   dependencies, whether it is the last job of its instance) and the faults
+   injected into the first incarnation.  A run consists of one or more
+   incarnations of mrp separated by Restart records (the fault is removed at
+   the restart).
 
-   The monitors state exactly what properties C01-C03 and C06 demand, on
-   events emitted by the stage processes themselves (StageBegin / StageEnd)
-   and on the final state.  They never block: every violated guard appends a
-   record to `bad`, so one pass classifies all runs; the result is written
-   when the last line has been consumed.
+   The monitors state exactly what properties C01, C02, C03 and C06 demand, on
+   events emitted by the stage code itself (StageBegin / StageEnd) and on the
+   final state of each incarnation.  They never block: every violated guard
+   appends a record to `bad`, so one pass classifies all runs; the result is
+   written when the last line has been consumed.
 
    Normalised record fields (all present in every record):
-     ev, run, job, inst, kind, chunk, flag, txt, outcome, jobs, faults *)
+     ev, run, job, kind, flag, weak, named, txt, outcome, jobs, faults *)
 EXTENDS Integers, Sequences, FiniteSets, TLC, Json
 
 Trace == ndJsonDeserialize("trace.ndjson")
@@ -20,18 +23,22 @@ Trace == ndJsonDeserialize("trace.ndjson")
 VARIABLES l,        \* next line to consume
           run,      \* name of the current run
           exp,      \* job key -> expected job record
-          faults,   \* job key -> injected fault ("" = none)
-          begun,    \* job key -> number of times the job's process started
-          ended,    \* job key -> outcome of the last end
-          failed,   \* instances with a failed job
+          faults,   \* job key -> fault injected in the current incarnation
+          begun,    \* jobs whose process started in the current incarnation
+          ended,    \* job key -> outcome of its last end (any incarnation)
+          killed,   \* jobs that died with a previous mrp
+          done0,    \* jobs that had ended ok before the current incarnation
+          failed,   \* instances with a failed job in the current incarnation
+          phase,    \* number of restarts so far
           weakp,    \* the program has an unforked merge over a run-time collection
           tainted,  \* the known "unforked-merge" defect has manifested in this run
           bad       \* violations found so far
 
-vars == <<l, run, exp, faults, begun, ended, failed, weakp, tainted, bad>>
+vars == <<l, run, exp, faults, begun, ended, killed, done0, failed, phase, weakp, tainted, bad>>
 
-Init == /\ l = 1 /\ run = "" /\ exp = <<>> /\ faults = <<>> /\ begun = <<>> /\ ended = <<>>
-        /\ failed = {} /\ bad = <<>> /\ tainted = FALSE /\ weakp = FALSE
+Init == /\ l = 1 /\ run = "" /\ exp = <<>> /\ faults = <<>> /\ begun = {} /\ ended = <<>>
+        /\ killed = {} /\ done0 = {} /\ failed = {} /\ phase = 0
+        /\ weakp = FALSE /\ tainted = FALSE /\ bad = <<>>
 
 Ev == Trace[l]
 Viol(p, what) == [run |-> run, line |-> l, prop |-> p, job |-> Ev.job, what |-> what]
@@ -39,33 +46,41 @@ Viol(p, what) == [run |-> run, line |-> l, prop |-> p, job |-> Ev.job, what |-> 
 FnOf(s) == [k \in {s[i].key : i \in DOMAIN s} |-> s[CHOOSE i \in DOMAIN s : s[i].key = k]]
 Range(s) == {s[i] : i \in DOMAIN s}
 
-OkEnded(k) == k \in DOMAIN ended /\ ended[k] = "ok"
+OkEnded(k) == k \in DOMAIN ended /\ ended[k] = "ok" /\ k \notin killed
 (* an instance has finished when its last job (join, or the single main) ended ok *)
 InstDone(i) == \E k \in DOMAIN exp : exp[k].inst = i /\ exp[k].last /\ OkEnded(k)
-InstFailed(i) == i \in failed
 JobsOf(i, kind) == {k \in DOMAIN exp : exp[k].inst = i /\ exp[k].kind = kind}
+WeakBroken(e) == \E d \in Range(e.wdeps) : ~InstDone(d)
+Faulty == DOMAIN faults # {}
 
 RunBegin ==
     /\ Ev.ev = "RunBegin"
     /\ run' = Ev.run
     /\ exp' = FnOf(Ev.jobs)
     /\ faults' = FnOf(Ev.faults)
-    /\ begun' = <<>> /\ ended' = <<>> /\ failed' = {} /\ tainted' = FALSE /\ weakp' = Ev.weak
+    /\ begun' = {} /\ ended' = <<>> /\ killed' = {} /\ done0' = {} /\ failed' = {}
+    /\ phase' = 0 /\ tainted' = FALSE /\ weakp' = Ev.weak
     /\ UNCHANGED bad
-
-WeakBroken(e) == \E d \in Range(e.wdeps) : ~InstDone(d)
 
 (* ---- guards on the start of a job ---- *)
 BeginViolations ==
     LET j == Ev.job
         known == j \in DOMAIN exp
         e == exp[j]
-    IN  (IF ~known THEN <<Viol("C03", "a job was executed that the program does not contain: " \o j)>> ELSE <<>>)
+        um == IF known /\ (WeakBroken(e) \/ tainted) THEN "unforked-merge: " ELSE ""
+    IN  (IF ~known /\ Ev.kind # "placeholder"
+         THEN <<Viol("C03", "a job was executed that the program does not contain: " \o j)>> ELSE <<>>)
+     \o (IF Ev.kind = "placeholder"
+         THEN <<Viol("C02", "a job of a not yet expanded fork was started: the collection its call is mapped over was not finished")>>
+         ELSE <<>>)
      \o (IF known /\ e.ghost
          THEN <<Viol("C03", "ghost: a job was executed inside a call that is mapped over an empty or null collection")>>
          ELSE <<>>)
-     \o (IF j \in DOMAIN begun /\ (~known \/ j \notin DOMAIN faults \/ TRUE)
+     \o (IF j \in begun
          THEN <<Viol("C03", "job executed more than once")>> ELSE <<>>)
+     \o (IF j \notin begun /\ j \in done0
+         THEN <<Viol("C06", "a job whose completion had been recorded was executed again after the restart")>>
+         ELSE <<>>)
      \o (IF known /\ \E d \in Range(e.deps) : ~InstDone(d)
          THEN <<Viol("C02", "job started before its dependency finished: "
                      \o (CHOOSE d \in Range(e.deps) : ~InstDone(d)))>> ELSE <<>>)
@@ -77,55 +92,79 @@ BeginViolations ==
      \o (IF known /\ e.kind = "join" /\ \E k \in JobsOf(e.inst, "main") \cup JobsOf(e.inst, "split") : ~OkEnded(k)
          THEN <<Viol("C02", "join started before every chunk finished")>> ELSE <<>>)
      \o (IF known /\ ~Ev.flag
-         THEN <<Viol("C01", (IF WeakBroken(e) \/ tainted THEN "unforked-merge: " ELSE "")
-                            \o "arguments differ from what the bindings denote: " \o Ev.txt)>> ELSE <<>>)
-     \o (IF known /\ \E d \in Range(e.deps) : InstFailed(d)
-         THEN <<Viol("C06", "job started although a call it depends on has failed")>> ELSE <<>>)
+         THEN <<Viol("C01", um \o "arguments differ from what the bindings denote: " \o Ev.txt)>> ELSE <<>>)
+     \o (IF known /\ \E d \in Range(e.deps) : d \in failed
+         THEN <<Viol("C06", "job started although a call it depends on has failed: "
+                     \o (CHOOSE d \in Range(e.deps) : d \in failed))>> ELSE <<>>)
 
 StageBegin ==
     /\ Ev.ev = "StageBegin"
     /\ bad' = bad \o BeginViolations
-    /\ begun' = (Ev.job :> (IF Ev.job \in DOMAIN begun THEN begun[Ev.job] + 1 ELSE 1)) @@ begun
+    /\ begun' = begun \cup {Ev.job}
+    /\ killed' = killed \ {Ev.job}
     /\ tainted' = (tainted \/ (Ev.job \in DOMAIN exp /\ WeakBroken(exp[Ev.job])))
-    /\ UNCHANGED <<run, exp, faults, ended, failed, weakp>>
+    /\ UNCHANGED <<run, exp, faults, ended, done0, failed, phase, weakp>>
 
 StageEnd ==
     /\ Ev.ev = "StageEnd"
     /\ ended' = (Ev.job :> Ev.outcome) @@ ended
     /\ failed' = IF Ev.outcome # "ok" /\ Ev.job \in DOMAIN exp
                  THEN failed \cup {exp[Ev.job].inst} ELSE failed
-    /\ UNCHANGED <<run, exp, faults, begun, bad, tainted, weakp>>
+    /\ UNCHANGED <<run, exp, faults, begun, killed, done0, phase, weakp, tainted, bad>>
 
-(* ---- guards on the final state ---- *)
-NoFault == \A k \in DOMAIN faults : faults[k].fault = ""
+(* a job that was running when mrp exited dies with it *)
+StageKilled ==
+    /\ Ev.ev = "StageKilled"
+    /\ killed' = killed \cup {Ev.job}
+    /\ UNCHANGED <<run, exp, faults, begun, ended, done0, failed, phase, weakp, tainted, bad>>
+
+(* ---- guards on the final state of an incarnation ---- *)
 EndViolations ==
-    LET st == Ev.outcome IN
-    IF DOMAIN faults = {} \/ NoFault THEN
+    LET st == Ev.outcome
+        um == IF tainted \/ (weakp /\ Ev.kind = "merge-unresolved") THEN "unforked-merge: " ELSE ""
+        pp == IF phase = 0 THEN "C03" ELSE "C06"
+        after == IF phase = 0 THEN "" ELSE "after the fault was removed and mrp restarted, "
+    IN
+    IF ~Faulty THEN
         (IF st \notin {"complete", "disabled"}
-         THEN <<Viol("C03", (IF tainted \/ (weakp /\ Ev.kind = "merge-unresolved") THEN "unforked-merge: " ELSE "")
-                            \o "the pipestance did not complete (state " \o st \o "): " \o Ev.txt)>>
+         THEN <<Viol(pp, um \o after \o "the pipestance did not complete (state " \o st \o "): " \o Ev.txt)>>
          ELSE
-            (IF \E k \in DOMAIN exp : ~exp[k].ghost /\ k \notin DOMAIN begun
-             THEN <<Viol("C03", "job was never executed: " \o (CHOOSE k \in DOMAIN exp : ~exp[k].ghost /\ k \notin DOMAIN begun))>>
+            (IF \E k \in DOMAIN exp : ~exp[k].ghost /\ ~OkEnded(k)
+             THEN <<Viol(pp, after \o "job was never executed: "
+                         \o (CHOOSE k \in DOMAIN exp : ~exp[k].ghost /\ ~OkEnded(k)))>>
              ELSE <<>>)
-         \o (IF ~Ev.flag THEN <<Viol("C01", (IF tainted THEN "unforked-merge: " ELSE "")
-                 \o "top-level outputs differ from what the return bindings denote: " \o Ev.txt)>> ELSE <<>>))
+         \o (IF ~Ev.flag THEN <<Viol(IF phase = 0 THEN "C01" ELSE "C06",
+                 um \o after \o "top-level outputs differ from what the return bindings denote: " \o Ev.txt)>> ELSE <<>>))
     ELSE
         (IF st # "failed"
-         THEN <<Viol("C06", "a job failed but the pipestance ended in state " \o st)>> ELSE <<>>)
+         THEN <<Viol("C06", "a job failed (" \o (CHOOSE k \in DOMAIN faults : TRUE) \o ": "
+                     \o faults[CHOOSE k \in DOMAIN faults : TRUE].fault
+                     \o ") but the pipestance ended in state " \o st)>>
+         ELSE IF ~Ev.named
+         THEN <<Viol("C06", "the reported error does not name the failing stage: " \o Ev.txt)>>
+         ELSE <<>>)
 
 RunEnd ==
     /\ Ev.ev = "RunEnd"
     /\ bad' = bad \o EndViolations
-    /\ UNCHANGED <<run, exp, faults, begun, ended, failed, tainted, weakp>>
+    /\ UNCHANGED <<run, exp, faults, begun, ended, killed, done0, failed, phase, weakp, tainted>>
+
+(* the operator removes the fault and starts mrp again on the same directory *)
+Restart ==
+    /\ Ev.ev = "Restart"
+    /\ phase' = phase + 1
+    /\ faults' = <<>>
+    /\ done0' = {k \in DOMAIN ended : OkEnded(k)}
+    /\ begun' = {} /\ failed' = {}
+    /\ UNCHANGED <<run, exp, ended, killed, weakp, tainted, bad>>
 
 Other ==
-    /\ Ev.ev \notin {"RunBegin", "StageBegin", "StageEnd", "RunEnd"}
-    /\ UNCHANGED <<run, exp, faults, begun, ended, failed, tainted, weakp, bad>>
+    /\ Ev.ev \notin {"RunBegin", "StageBegin", "StageEnd", "StageKilled", "RunEnd", "Restart"}
+    /\ UNCHANGED <<run, exp, faults, begun, ended, killed, done0, failed, phase, weakp, tainted, bad>>
 
 Next == /\ l <= Len(Trace)
         /\ l' = l + 1
-        /\ (RunBegin \/ StageBegin \/ StageEnd \/ RunEnd \/ Other)
+        /\ (RunBegin \/ StageBegin \/ StageEnd \/ StageKilled \/ RunEnd \/ Restart \/ Other)
 
 Spec == Init /\ [][Next]_vars
 
